@@ -8,6 +8,10 @@
 #include <atomic>
 #include <cstdint>
 #include <mutex>
+#include <execinfo.h>
+#include <signal.h>
+#include <unistd.h>
+#include <fcntl.h>
 
 #define private public
 #define protected public
@@ -275,9 +279,53 @@ static FWire exceptions(Reader& r) {
     return out;
 }
 
+static int g_errfd = 2;
+static void on_segv(int sig) {
+    void* bt[64]; const int n = backtrace(bt,64);
+    const char msg[] = "h_c05: fatal signal, backtrace:\n"; (void) !write(g_errfd,msg,sizeof msg-1);
+    backtrace_symbols_fd(bt,n,g_errfd);
+    _exit(128+sig);
+}
+
+// Like run_cases_f of wire.h, but std::cerr is NOT redirected into a std::ostringstream: om_assert's Assert() writes to
+// std::cerr from inside parallel regions, which is fine for the synchronised standard stream and a data race (heap
+// corruption) on a string buffer.  The chatter is dropped at file-descriptor level instead; std::cout (written by the
+// library outside parallel regions only) still goes to a string sink because stdout carries the results.
+static int run_cases_mt(const char* path,const std::function<FWire(const std::string&,Reader&,FReader&)>& dispatch) {
+    std::ifstream in(path);
+    if (!in) { fprintf(stderr,"cannot open %s\n",path); return 2; }
+    g_errfd = dup(2);
+    const int devnull = open("/dev/null",O_WRONLY);
+    if (devnull>=0) { dup2(devnull,2); close(devnull); }
+    std::string line;
+    while (std::getline(in,line)) {
+        std::istringstream ls(line);
+        std::string comp; ls >> comp;
+        Wire w; std::vector<double> f; std::string tok; bool fl=false;
+        while (ls >> tok) {
+            if (tok=="|") { fl=true; continue; }
+            if (fl) f.push_back(strtod(tok.c_str(),nullptr)); else w.push_back(atoll(tok.c_str()));
+        }
+        FWire out;
+        std::ostringstream sink; std::streambuf* o = std::cout.rdbuf(sink.rdbuf());
+        try {
+            Reader r(w); FReader fr(f);
+            out = dispatch(comp,r,fr);
+        } catch (Reader::Malformed&) { out = FWire{Wire{-1},{}}; }
+          catch (std::invalid_argument&) { out = FWire{Wire{ST_ASSERT},{}}; }
+          catch (std::exception&) { out = FWire{Wire{ST_OTHER},{}}; }
+          catch (...) { out = FWire{Wire{ST_OTHER},{}}; }
+        std::cout.rdbuf(o);
+        emit_f(out);
+        fflush(stdout);
+    }
+    return 0;
+}
+
 int main(int argc,char** argv) {
+    signal(SIGSEGV,on_segv); signal(SIGBUS,on_segv); signal(SIGABRT,on_segv);
     if (argc<2) { fprintf(stderr,"usage: h_c05 cases.txt\n"); return 2; }
-    return run_cases_f(argv[1],[](const std::string& comp,Reader& r,FReader&) -> FWire {
+    return run_cases_mt(argv[1],[](const std::string& comp,Reader& r,FReader&) -> FWire {
         if (comp!="c05") throw Reader::Malformed();
         const ll op = r.z();
         switch (op) {
